@@ -240,6 +240,49 @@ def run_shard(pid, spec, rec):
         r = explore(fam, kind, impl, sizes, uni, vals, rec, rng,
                     judge='contents', structure=False, on_state=on_state,
                     **kw)
+    elif pid == 'C06':
+        import copy
+        import pickle
+        other = 'py' if impl == 'c' else 'c'
+        from .props import c06
+
+        def on_state(ls, w, path):
+            # every reachable state through pickle (own and the other
+            # implementation's classes), deepcopy and a fresh __setstate__
+            rec.ev(impl + ':explore:state-round-tripped')
+            want = contents(ls.c, is_mapping)
+            d = dict(family=fam.name, kind=kind, impl=impl, sizes=sizes,
+                     path=[brief_(x) for x in path[-40:]],
+                     path_len=len(path), shape=repr(w.shape)[:200])
+            f22 = {'finding': 'F22'} if w.inline_nonroot else {}
+            clones = []
+            try:
+                data = pickle.dumps(ls.c, 3)
+                clones.append(('pickle', pickle.loads(data)))
+                clones.append(('pickle->' + other,
+                               c06.loads_as_py(data) if impl == 'c'
+                               else pickle.loads(data)))
+                clones.append(('deepcopy', copy.deepcopy(ls.c)))
+            except Exception as e:
+                rec.violation('round-trip-raised', detail='%s: %s' % (
+                    type(e).__name__, e), **dict(d, **f22))
+                return
+            for how, cl in clones:
+                rec.evaluations += 1
+                try:
+                    got = contents(cl, is_mapping)
+                    errs = hist.structural_checks(cl, is_mapping)[0]
+                except Exception as e:
+                    got, errs = None, [('raised', '%s: %s' % (
+                        type(e).__name__, e))]
+                if errs or not eq(got, want):
+                    rec.violation('clone-damaged', how=how,
+                                  errors=errs[:3], observed=brief_(got),
+                                  **dict(d, **f22))
+                    return
+        r = explore(fam, kind, impl, sizes, uni, vals, rec, rng,
+                    judge='contents', structure=False, on_state=on_state,
+                    **kw)
     elif pid == 'C09':
         import pickle
         from .props import c06
